@@ -14,6 +14,21 @@ CHECKS = {
          "Trusts the harness-side reference model (40 lines). is_complete(n) is judged only for n >= end of held data. Needs hook H2 (re-export of Segments).",
          "DESIGN.md §5 C09"),
 }
+CHECKS["C14"] = ("E1-pure",
+  "structured sweep + proptest against a reference implementation, differential across reader kinds, single-byte metamorphic relation",
+  "Every length 0..130 (thorough 0..260) with ramp/0xFF/random content and a single non-zero byte at every position, lengths around the 8 KiB/16 KiB/64 KiB "
+  "buffer boundaries, through a Cursor, a real File and a harness Read+Seek that returns short reads from generated schedules (1..9, 8191, 8192, 8193, mixed); "
+  "each result is compared with an independent CCSDS reference, with the Cursor reader, and with the result after changing one byte. Sampled beyond the sweep by proptest.",
+  "Trusts the 10-line reference checksum in the harness. Readers obey the std::io::Read/Seek contracts.",
+  "DESIGN.md §5 C14")
+CHECKS["C12"] = ("E1-pure",
+  "bounded-exhaustive path alphabet x every filestore operation; lexical containment oracle + before/after snapshot of a sentinel tree",
+  "Every name made of a prefix in {none,'/','//','./',<root>,<root>/,<root>X,<parent>} and up to 4 (quick) / 5 (thorough) components over {a,b,'.','..',''} is "
+  "combined with every public filestore operation and every process_request action; get_native_path must resolve (without clamping) inside the root, and a recursive "
+  "snapshot of everything outside the root (sentinel files, a sibling whose name extends the root's) must be unchanged, and no read may return sentinel data. "
+  "Exhaustive within the alphabet and length bound; longer names sampled by proptest.",
+  "Lexical containment only (no symlinks); absolute root. Trusts the harness's own lexical resolver and snapshot.",
+  "DESIGN.md §5 C12")
 NOT_YET = {}
 
 def main():
